@@ -31,6 +31,7 @@ Section PathProofs.
   Notation mem := (Path.mem A eqA).
   Notation match_here := (Path.match_here A eqA).
   Notation re_search := (Path.re_search A eqA).
+  Notation pat_rejects_char := (Path.pat_rejects_char A eqA).
   Notation tail_sep := (Path.tail_sep A eqA sep).
   Notation plain := (Path.plain A sep dot).
   Notation inside := (Path.inside A eqA sep dot).
@@ -391,10 +392,8 @@ Section PathProofs.
     2:{ destruct comps; discriminate. }
     2:{ apply Forall_app. split; [apply plain_nosep; assumption | constructor; [assumption | constructor]]. }
     rewrite fold_left_app, fold_np_empties. rewrite fold_left_app.
-    rewrite fold_np_plain by assumption. rewrite app_nil_r. reflexivity.
+    rewrite (fold_np_plain true comps) by assumption. rewrite app_nil_r. reflexivity.
   Qed.
-
-  Definition parent_segs (segs : list str) : list str := removelast segs.
 
   (* the three possible values of normpath (join base id) for a separator-free id *)
   Lemma normpath_join_base :
@@ -495,14 +494,10 @@ Section PathProofs.
     simpl. apply orb_true_iff. right. apply IH. assumption.
   Qed.
 
-  (* an alternative consisting of one class containing x rejects every string containing x *)
-  Definition pat_rejects_char (pat : list (list (list A))) (x : A) : bool :=
-    existsb (fun a => match a with [c] => mem x c | _ => false end) pat.
-
   Lemma pat_rejects_char_sound :
     forall pat x s, pat_rejects_char pat x = true -> In x s -> re_search pat s = true.
   Proof.
-    intros pat x s Hp Hin. unfold pat_rejects_char in Hp.
+    intros pat x s Hp Hin. unfold Path.pat_rejects_char in Hp.
     apply existsb_exists in Hp. destruct Hp as [a [Ha Hm]].
     destruct a as [|c [|c' a']]; try discriminate.
     apply in_split in Hin. destruct Hin as [l1 [l2 E]]. subst s.
